@@ -324,6 +324,10 @@ func domOp(ctx context.Context, db *domain.DB, c tcase, o op, in *injector) erro
 	switch o.Op {
 	case "dwrite":
 		cfg := domain.WriterConfig{Start: telem.TimeStamp(o.Start), End: telem.TimeStamp(o.Start + int64(o.N))}
+		if o.NoEnd {
+			// no preset end: OpenWriter bounds the writer by the next domain (index.getGE), Commit names the end
+			cfg.End = 0
+		}
 		if c.Persist == "always" {
 			cfg.AutoIndexPersistInterval = domain.AlwaysIndexPersistOnAutoCommit
 		}
